@@ -136,6 +136,57 @@ pub fn check_net(scratch: &Scratch, net: &Net, ni: usize, tier: Tier, st: &mut S
             continue;
         }
         let app = world.search_app(algo.real(), weights.clone(), rates.clone(), false, Arc::new(NoRestriction {}));
+        // a query without destination yields trees and no route: with both renderings configured the response still carries
+        // one tree entry per branch (plain search only: the k-shortest-paths algorithms need a destination)
+        if ai == 0 {
+            let tq = json!({"origin_vertex": 0});
+            for (fname, fmt) in FORMATS.iter() {
+                st.evaluations += 1;
+                st.transitions += 1;
+                st.traces += 1;
+                let result = app.run(&tq, &SearchOrientation::Vertex);
+                let trees: Vec<usize> = match &result {
+                    Ok((r, _)) if r.routes.is_empty() => r.trees.iter().map(|t| t.len()).collect(),
+                    _ => continue,
+                };
+                let plugin = match TraversalPlugin::from_file(&gfile, Some(*fmt), Some(*fmt)) {
+                    Ok(p) => p,
+                    Err(_) => continue,
+                };
+                let plugins: Vec<Arc<dyn OutputPlugin>> = vec![Arc::new(SummaryOutputPlugin {}), Arc::new(plugin)];
+                let comp = format!("{}.tree_only_query", fname);
+                let case = || json!({"net": net, "format": fname, "query_without_destination": true, "net_index": ni});
+                let out = match guarded(|| apply_output_processing(&tq, result, &app, &plugins)) {
+                    Ok(o) => o,
+                    Err(p) => {
+                        st.violation(&comp, "no_panic", net.size(), || p.clone(), case);
+                        continue;
+                    }
+                };
+                if out.get("error").is_some() {
+                    st.violation(&comp, "renders_without_error", net.size(), || out["error"].to_string(), case);
+                    continue;
+                }
+                let want: usize = trees.iter().sum();
+                let got = match out.get("tree") {
+                    None | Some(Value::Null) => None,
+                    Some(t) => match *fname {
+                        "edge_id" | "json" => t.as_array().map(|a| a.len()),
+                        "geo_json" => t["features"].as_array().map(|a| a.len()),
+                        "wkt" => t.as_str().map(|s| if want == 0 { 0 } else { parse_wkt_coords(s).len() }),
+                        _ => t.as_str().and_then(decode_wkb).map(|g| match g {
+                            geo::Geometry::MultiLineString(m) => m.0.len(),
+                            _ => usize::MAX,
+                        }),
+                    },
+                };
+                if got == Some(want) || (want == 0 && got.is_none()) {
+                    st.pass("tree_output_has_one_entry_per_branch");
+                } else {
+                    st.violation(&comp, "tree_output_has_one_entry_per_branch", net.size(), || format!("tree with {} branches rendered with {:?} entries: {}", want, got, out.get("tree").cloned().unwrap_or(Value::Null)), case);
+                }
+            }
+        }
         let query = json!({"origin_vertex": 0, "destination_vertex": n - 1});
         for (fname, fmt) in FORMATS.iter() {
             // the route and the tree renderings are configured independently: both together, and (with the short table)
